@@ -2,7 +2,9 @@
    A container is an insertion-ordered list of (key string, value); a value is a string, a
    repeating group (list of containers) or a class object stored by `set(tag, SomeClass)`.
    Every function follows the Python method of the same name line by line, including what is
-   wrong with it (DESIGN.md ledger D18).  No proofs here (Lemmas/ContainerL.v).
+   wrong with it (DESIGN.md ledger D18: equality by rendered text; the other four items of D18
+   are repaired by fixes/C18-*.patch and the model describes the repaired code).
+   No proofs here (Lemmas/ContainerL.v).
 
    Mutating methods return (container afterwards, outcome) so that "a refused call changes
    nothing" is a statement about the function and not a convention of the caller. *)
@@ -182,29 +184,34 @@ Definition py_insert {A} (idx : Z) (x : A) (l : list A) : list A :=
   else if (0 <=? idx)%Z then insert_at (Z.to_nat (Z.min idx len)) x l
   else insert_at (Z.to_nat (Z.max 0 (len + idx))) x l.
 
-(* `item` is the outcome of turning the argument into a FIXContainer (dict -> FIXContainer(dict),
-   which may raise; not a container -> FIXMessageError); that happens before the tag is looked at *)
+(* the tag is checked like in set (_int_tag); then `item`, the outcome of turning the argument into
+   a FIXContainer (dict -> FIXContainer(dict), which may raise; not a container ->
+   FIXMessageError); only then the tag is looked up *)
 Definition c_add_group (t : tag) (item : res container) (idx : Z) (c : container)
   : container * res unit :=
-  let k := tag_str t in
-  match item with
-  | Exc e => (c, Exc e)
-  | Ok it =>
-      match lookup k (items c) with
-      | Some (VGrp g) => (with_items c (assign k (VGrp (py_insert idx it g)) (items c)), Ok tt)
-      | Some _ => (c, Exc EAttributeError)             (* D18: str / class has no add_group *)
-      | None => (with_items c (assign k (VGrp (py_insert idx it [])) (items c)), Ok tt)
-      end
-  end.
+  if negb (tag_ok t) then (c, Exc EFIXMessage)
+  else
+    let k := tag_str t in
+    match item with
+    | Exc e => (c, Exc e)
+    | Ok it =>
+        match lookup k (items c) with
+        | Some (VGrp g) => (with_items c (assign k (VGrp (py_insert idx it g)) (items c)), Ok tt)
+        | Some _ => (c, Exc EFIXMessage)               (* exists and is not a repeating group *)
+        | None => (with_items c (assign k (VGrp (py_insert idx it [])) (items c)), Ok tt)
+        end
+    end.
 
-(* the duplicate check comes first, then the items are converted one by one *)
+(* tag check, then the duplicate check, then the items are converted one by one *)
 Definition c_set_group (t : tag) (g : res (list container)) (c : container) : container * res unit :=
-  let k := tag_str t in
-  if has k (items c) then (c, Exc EDuplicatedTag)
-  else match g with
-       | Exc e => (c, Exc e)
-       | Ok g => (with_items c (assign k (VGrp g) (items c)), Ok tt)
-       end.
+  if negb (tag_ok t) then (c, Exc EFIXMessage)
+  else
+    let k := tag_str t in
+    if has k (items c) then (c, Exc EDuplicatedTag)
+    else match g with
+         | Exc e => (c, Exc e)
+         | Ok g => (with_items c (assign k (VGrp g) (items c)), Ok tt)
+         end.
 
 Definition c_get_group_list (t : tag) (c : container) : res (list container) :=
   match c_is_group (TStr (tag_str t)) c with
@@ -246,10 +253,9 @@ Definition c_get_group_by_index (t : tag) (idx : Z) (c : container) : res contai
   | Exc e => Exc e
   | Ok g =>
       let len := Z.of_nat (length g) in
-      if (len <=? idx)%Z then Exc ETagNotFound
+      if (len <=? idx)%Z || (idx <? - len)%Z then Exc ETagNotFound
       else if (0 <=? idx)%Z then nth_res (Z.to_nat idx) g
-      else if (0 <=? len + idx)%Z then nth_res (Z.to_nat (len + idx)) g
-      else Exc EIndexError                               (* D18 *)
+      else nth_res (Z.to_nat (len + idx)) g
   end.
 
 (* ---------------------------------------------------------------- FIXContainer(dict) *)
@@ -369,14 +375,16 @@ Fixpoint eq_dict_loop (other : list (tag * str)) (c : container) : res bool :=
   match other with
   | [] => Ok true
   | (t, v) :: o' =>
-      match c_is_group t c with
-      | Some true => Exc EFIXMessage
-      | _ =>
-          match c_get t DRaise c with          (* D18: raises for a key the message lacks *)
-          | Exc e => Exc e
-          | Ok r => if rval_is r v then eq_dict_loop o' c else Ok false
-          end
-      end
+      if mem (tag_str t) ignore_tags then eq_dict_loop o' c       (* framing tags are skipped *)
+      else
+        match c_is_group t c with
+        | Some true => Exc EFIXMessage
+        | _ =>
+            match c_get t DRaise c with
+            | Exc e => Exc e
+            | Ok r => if rval_is r v then eq_dict_loop o' c else Ok false
+            end
+        end
   end.
 
 (* other = [(key, str(value))] in dict order *)
